@@ -10,6 +10,8 @@ mod sem_struct;
 mod feat;
 #[cfg(feature = "b1")]
 mod corpus;
+#[cfg(feature = "b1")]
+mod meta;
 mod xp;
 #[cfg(feature = "b1")]
 mod ir;
